@@ -543,9 +543,14 @@ class TLSRecordLayer(object):
                 if self.closeSocket:
                     self._shutdown(True)
                 else:
+                    types = (ContentType.alert, ContentType.application_data)
+                    hs_types = None
+                    if self.version > (3, 3) and self._client:
+                        # tickets the server sent may still be unread
+                        types += (ContentType.handshake,)
+                        hs_types = (HandshakeType.new_session_ticket,)
                     while not alert:
-                        for result in self._getMsg((ContentType.alert, \
-                                                  ContentType.application_data)):
+                        for result in self._getMsg(types, hs_types):
                             if result in (0,1):
                                 yield result
                         if result.contentType == ContentType.alert:
